@@ -65,6 +65,15 @@ ASSUMPTIONS = [
     "the pool has frames whose columns are EXACTLY the variables of one formula (no unused column), "
     "with missing values in used columns, besides frames with unused columns with and without "
     "missing values; every frame handed to the library is fingerprinted after every operation",
+    "the caller's namespace holds, besides a list, a module and an int, one Treatment() and one Sum() "
+    "instance with default arguments that four formulas name (`C(g, enc_t)`, `C(f, enc_s)`, the same "
+    "instance for two factors, as a group-specific effect); every history (and every fresh process) "
+    "creates its own instances; the deep attribute state of every namespace object is compared after "
+    "every operation, and every later design is compared with the fresh process as before",
+    "every call into the library (design_matrices, model_description, evaluate_new_data, config "
+    "assignment, printing) is made from functions whose local and global names all start with an "
+    "underscore (no column / namespace name of the pool does): the caller-scope lookup of "
+    "design_matrices (env=0) sees no harness variable",
     "absence of writes to arrays/DataFrames already returned, object aliasing (shared Term objects, "
     "shared slices dict), the Polynomial memo dictionaries and the TRANSFORMS registry are outside "
     "the model: they are covered only by the snapshot checks of this harness and by the translator "
@@ -89,7 +98,16 @@ FORMULAS = [
     # `w` has no spread in one of the frames a design is built from (frame 1): whatever a transform
     # remembers about it is fixed by that build, not by the frames evaluated afterwards
     ("y ~ scale(w) + center(w):h + f", False),
+    # objects of the library's own public classes OWNED BY THE CALLER: one Treatment() and one Sum()
+    # instance (default arguments) live in the caller's namespace and are named by the formulas; the
+    # first level of `g` differs between the frames (t / u / s), the first level of `f` and `g` differ
+    # within one frame: what a design does with the encoding must stay in the design
+    ("y ~ C(g, enc_t) + x", False),
+    ("y ~ C(f, enc_s) + C(g, enc_t):x", False),
+    ("y ~ 0 + C(h, enc_t) + (C(g, enc_s) | h)", False),
+    ("y ~ C(f, enc_t) + C(g, enc_t)", False),
 ]
+ENC_FORMULAS = [8, 9, 10, 11]
 N_BASE = 6                  # frames 0..5 have every column; frame 6 + i has exactly the columns of formula i
 
 
@@ -104,6 +122,8 @@ POOLS = {
     # frames with missing values in used columns; 4: with unused columns, 6 + i: without
     "na": ([0, 3, 4], [4], [1, 4], ["silent"], True),
     "full": (list(range(len(FORMULAS))), [0, 1, 2, 4, 5], [0, 1, 2, 3, 4, 5], MODES, True),
+    # formulas naming the caller's encoding objects, built on frames whose first levels differ
+    "enc": (ENC_FORMULAS, [0, 1, 2], [0, 1], ["silent"], False),
 }
 
 
@@ -194,7 +214,39 @@ def _distinct(vals, rng):
 
 
 def make_namespace():
-    return {"lv_f": ["c", "a", "b"], "np": np, "shift": 3}
+    """the caller's namespace of one history: plain data, a module, and caller-owned instances of the
+    library's public encoding classes (default arguments)"""
+    from formulae.categorical import Sum, Treatment
+    return {"lv_f": ["c", "a", "b"], "np": np, "shift": 3, "enc_t": Treatment(), "enc_s": Sum()}
+
+
+def _deep(v, depth=0):
+    """canonical, comparable rendering of an object bound in the caller's namespace, with the
+    attribute state of instances (of library classes or any other) followed recursively"""
+    import types
+    if isinstance(v, types.ModuleType):
+        return ("module", v.__name__)
+    if isinstance(v, dict):
+        return ("dict", tuple((repr(k), _deep(x, depth + 1)) for k, x in v.items()))
+    if isinstance(v, (list, tuple, set, frozenset)):
+        items = sorted(v, key=repr) if isinstance(v, (set, frozenset)) else v
+        return (type(v).__name__, tuple(_deep(x, depth + 1) for x in items))
+    if isinstance(v, type) or isinstance(v, (types.FunctionType, types.BuiltinFunctionType)):
+        return ("callable", getattr(v, "__module__", ""), getattr(v, "__qualname__", repr(v)))
+    base = _plain(v)
+    if base[0] == "obj" and depth < 8:
+        state = getattr(v, "__dict__", None)
+        slots = [a for a in getattr(type(v), "__slots__", ()) if hasattr(v, a)]
+        if state is not None or slots:
+            attrs = dict(state or {})
+            attrs.update({a: getattr(v, a) for a in slots})
+            return ("instance", type(v).__module__ + "." + type(v).__qualname__,
+                    tuple((k, _deep(x, depth + 1)) for k, x in sorted(attrs.items())))
+    return base
+
+
+def namespace_state(ns):
+    return tuple((k, _deep(v)) for k, v in ns.items())
 
 
 # ------------------------------------------------------------------------------------------------
@@ -443,6 +495,52 @@ def frame_fingerprint(df):
             tuple(df.index.tolist()), tuple(cols))
 
 
+
+# ------------------------------------------------------------------------------------------------
+# the call sites into the library
+# ------------------------------------------------------------------------------------------------
+# `design_matrices` (env=0) makes the local AND global names of its caller visible to the formula
+# (after the data frame and `extra_namespace`).  A formula evaluated on a frame that lacks one of its
+# columns (`C(f, levels=lv_f)` on a frame without `f`) would find a harness variable of that name
+# (`f`, `w`, `x`, `k`, ...) instead of failing the way it does for a caller who has no such name.  Every
+# call into the library therefore happens from one of the functions below, which live in a scope of
+# their own: their locals and globals all start with an underscore, and no column or namespace name
+# of the pool does (checked by `_scope_is_clean`).
+_LIB_SCOPE = {"__builtins__": __builtins__}
+exec('''
+def _lib_build(_lib, _formula, _frame, _names):
+    return _lib.design_matrices(_formula, _frame, extra_namespace=_names)
+
+
+def _lib_describe(_lib, _formula):
+    return _lib.model_description(_formula)
+
+
+def _lib_evaluate(_matrix, _frame):
+    return _matrix.evaluate_new_data(_frame)
+
+
+def _lib_set_config(_lib, _key, _value):
+    _lib.config[_key] = _value
+
+
+def _lib_show(_object):
+    return str(_object), repr(_object)
+''', _LIB_SCOPE)
+_lib_build, _lib_describe, _lib_evaluate, _lib_set_config, _lib_show = (
+    _LIB_SCOPE[_n] for _n in ("_lib_build", "_lib_describe", "_lib_evaluate", "_lib_set_config",
+                              "_lib_show"))
+
+
+def _scope_is_clean(frames, ns):
+    """no name a formula could look up (columns of the pool, names of the caller's namespace) is a
+    local or global name of the functions that call the library"""
+    pool = set(ns) | {str(c) for fr in frames for c in fr.columns}
+    visible = {n for n in _LIB_SCOPE if n != "__builtins__"}
+    for fn in (_lib_build, _lib_describe, _lib_evaluate, _lib_set_config, _lib_show):
+        visible |= set(fn.__code__.co_varnames)
+    return not (pool & visible) and all(n.startswith("_") for n in visible)
+
 # ------------------------------------------------------------------------------------------------
 # one process executing operations against the real library
 # ------------------------------------------------------------------------------------------------
@@ -462,12 +560,16 @@ class Proc:
         self.touched = set()
         self.ns = make_namespace()
         self.ns_copy = (dict(self.ns), list(self.ns["lv_f"]))
+        # deep attribute state of every object bound in the namespace (before any operation)
+        self.ns_state = namespace_state(self.ns)
         self.check = check
         self.designs = []          # (dm, formula_idx, frame_idx, training snapshot, internal snapshot)
         self.results = []          # (object, copy of its matrix, slices)
         self.config = None         # last successfully set value (None: never set in this history)
         self.flags = []            # (op position, name, ok)
-        formulae.config[CONFIG_KEY] = MODES[0]       # a history starts from the default config
+        _lib_set_config(formulae, CONFIG_KEY, MODES[0])       # a history starts from the default config
+        if not _scope_is_clean(frames, self.ns):
+            raise RuntimeError("a name of the pool is visible in the scope that calls the library")
 
     def flag(self, pos, name, ok):
         self.flags.append((pos, name, bool(ok)))
@@ -479,17 +581,17 @@ class Proc:
             if o is None:
                 continue
             try:
-                str(o), repr(o)
+                _lib_show(o)
             except Exception:  # noqa
                 ok = False
         self.flag(pos, "printing a design / a result succeeds", ok)
 
     def step(self, pos, op):
-        f = self.formulae
+        lib = self.formulae
         kind = op[0]
         if kind == "s":
             try:
-                f.config[op[1]] = op[2]
+                _lib_set_config(lib, op[1], op[2])
                 self.config = op[2]
                 out = {"t": "config"}
             except Exception as e:  # noqa
@@ -500,7 +602,7 @@ class Proc:
             try:
                 with warnings.catch_warnings():
                     warnings.simplefilter("ignore")
-                    dm = f.design_matrices(formula, df, extra_namespace=self.ns)
+                    dm = _lib_build(lib, formula, df, self.ns)
                 out = canon_build(dm)
             except Exception as e:  # noqa
                 dm, out = None, {"t": "raised", "cls": type(e).__name__}
@@ -509,14 +611,14 @@ class Proc:
                 try:
                     with warnings.catch_warnings():
                         warnings.simplefilter("ignore")
-                        dm2 = f.design_matrices(formula, df, extra_namespace=self.ns)
+                        dm2 = _lib_build(lib, formula, df, self.ns)
                     out2 = canon_build(dm2)
                 except Exception as e:  # noqa
                     out2 = {"t": "raised", "cls": type(e).__name__}
                 self.flag(pos, "design_matrices twice gives identical output",
                           out_key(out) == out_key(out2))
                 try:
-                    d1, d2 = f.model_description(formula), f.model_description(formula)
+                    d1, d2 = _lib_describe(lib, formula), _lib_describe(lib, formula)
                     same = repr(d1) == repr(d2) and str(d1) == str(d2) and \
                         sorted(d1.var_names) == sorted(d2.var_names) and \
                         [t.name for t in d1.terms] == [t.name for t in d2.terms]
@@ -542,10 +644,10 @@ class Proc:
                     out = {"t": "absent"}
                 else:
                     try:
-                        with warnings.catch_warnings(record=True) as w:
+                        with warnings.catch_warnings(record=True) as rec:
                             warnings.simplefilter("always")
-                            new = obj.evaluate_new_data(df)
-                        warned = any(issubclass(x.category, UserWarning) for x in w)
+                            new = _lib_evaluate(obj, df)
+                        warned = any(issubclass(r_.category, UserWarning) for r_ in rec)
                         out = canon_eval(new, warned)
                         if self.check:
                             self.results.append((new, np.array(new.design_matrix, copy=True),
@@ -584,6 +686,9 @@ class Proc:
         ns_ok = list(self.ns.keys()) == list(self.ns_copy[0].keys()) and all(
             self.ns[k] is self.ns_copy[0][k] for k in self.ns) and self.ns["lv_f"] == self.ns_copy[1]
         self.flag(pos, "caller's namespace unchanged", ns_ok)
+        self.flag(pos, "attribute state of the objects in the caller's namespace unchanged (incl. "
+                       "caller-owned Treatment() / Sum() instances named by the formulas)",
+                  namespace_state(self.ns) == self.ns_state)
 
     def finish(self, pos):
         if self.check:
@@ -694,7 +799,11 @@ def _zygote_main():
     import logging
     import formulae  # noqa: F401  (imported, never used by this process)
     logging.getLogger("formulae").setLevel(logging.CRITICAL)
-    inp, outp = sys.stdin.buffer, sys.stdout.buffer
+    # the protocol owns a private copy of the pipe; whatever the library prints (it reports some
+    # errors with print()) goes to stderr and cannot corrupt the length-prefixed messages
+    inp, outp = sys.stdin.buffer, os.fdopen(os.dup(1), "wb")
+    sys.stdout.flush()
+    os.dup2(2, 1)
 
     def read(n):
         buf = b""
@@ -765,9 +874,13 @@ def exec_fresh(frames, ops):
 def _exec_fresh_main():
     import logging
     frames, ops = pickle.loads(base64.b64decode(sys.stdin.buffer.read()))
+    outp = os.fdopen(os.dup(1), "wb")       # (see _zygote_main: library print()s go to stderr)
+    sys.stdout.flush()
+    os.dup2(2, 1)
     import formulae  # noqa: F401
     logging.getLogger("formulae").setLevel(logging.CRITICAL)
-    sys.stdout.buffer.write(base64.b64encode(pickle.dumps(run_fresh(frames, ops))))
+    outp.write(base64.b64encode(pickle.dumps(run_fresh(frames, ops))))
+    outp.flush()
 
 
 # ------------------------------------------------------------------------------------------------
@@ -848,7 +961,8 @@ def run_history(frames, ops, pristine=None):
 def build_spec(dm, op, df=None):
     from formulae.terms import Intercept
     req = {"formula": FORMULAS[op[1]][0], "frame": op[2],
-           "names": designs.names_json({k: v for k, v in make_namespace().items() if k != "np"}),
+           "names": designs.names_json({k: v for k, v in make_namespace().items()
+                                        if isinstance(v, (list, str, int))}),
            "response": None, "common": [], "group": []}
     if df is not None:
         used = formula_columns(req["formula"], df.columns)
@@ -969,6 +1083,7 @@ def explore(tier, seed, res=None, replay=None):
     res.rule = ("histories of build / evaluate-common / evaluate-group / set-config over %d formulas "
                 "x %d frames (4 complete ones, 2 with missing values in used columns, and per formula "
                 "one that has exactly the formula's columns, with missing values) x 3 config values; "
+                "four of the formulas name caller-owned Treatment() / Sum() instances of the namespace; "
                 "non-trivial = a history with >= 2 operations in which an evaluation returned a "
                 "matrix; distinct by operation sequence" % (len(FORMULAS), N_BASE + len(FORMULAS)))
     frames = make_frames(seed)
@@ -987,6 +1102,12 @@ def explore(tier, seed, res=None, replay=None):
             batches.append(("na", h))
         res.count("exhaustive histories (pool 'na': frames with missing values in used columns, with "
                   "and without unused columns, length <= %d)" % (exh_len - 1), len(na_hist))
+        enc_hist = enumerate_histories("enc", exh_len - 1)
+        for h in enc_hist:
+            batches.append(("enc", h))
+        res.count("exhaustive histories (pool 'enc': formulas naming caller-owned Treatment() / Sum() "
+                  "instances, frames whose first levels differ, length <= %d)" % (exh_len - 1),
+                  len(enc_hist))
         n_rand, max_len = (300, 12) if tier == "quick" else (5000, 30)
         for i in range(n_rand):
             batches.append(("full", random_history(rng_for(seed, "c07", "hist", i), "full", max_len)))
